@@ -4,6 +4,7 @@ import (
 	"fmt"
 	"strings"
 
+	"verif/engine/ev"
 	"verif/engine/gx"
 )
 
@@ -37,22 +38,35 @@ var gens = []genInfo{
 // Scenarios: the schedule layer (GX): all executions with at most B deviations from the default policy
 // (an answer postponed while input is released, an early tick, an early AsyncClose, ...).
 func Scenarios() []gx.Sc {
-	return []gx.Sc{
+	out := []gx.Sc{
 		// partition-batch limit and count limit under latency, record batches
-		{Name: "lim?ver=0.11.0.0&mmb=200&vs=6,39,40,100&ff=100&fx=2&policy=input&closeany=1", Q: 2, T: 3},
-		{Name: "lim?ver=0.11.0.0&mmb=200&vs=6,6,6,6&parts=0,1,0,1&fx=2&policy=input", Q: 3, T: 4},
-		{Name: "lim?ver=2.1.0&mmb=200&vs=39,39,40,165&ks=-1,-1,-1,-1&parts=0,0,1,1&fm=2&ff=100&closeany=1", Q: 2, T: 3},
+		{Name: "lim?ver=0.11.0.0&mmb=200&vs=6,39,40,100&ff=100&fx=2&policy=input&closeany=1", Q: 3, T: 5},
+		{Name: "lim?ver=0.11.0.0&mmb=200&vs=6,6,6,6&parts=0,1,0,1&fx=2&policy=input", Q: 4, T: 6},
+		{Name: "lim?ver=2.1.0&mmb=200&vs=39,39,40,165&ks=-1,-1,-1,-1&parts=0,0,1,1&fm=2&ff=100&closeany=1", Q: 3, T: 5},
 		// message sets v1 / v0
-		{Name: "lim?ver=0.10.2.0&mmb=200&vs=73,74,74,6&fm=3&ff=100&fx=3&policy=input", Q: 2, T: 3},
-		{Name: "lim?ver=0.8.2.0&mmb=200&vs=37,40,100,98&ks=37,34,-1,3&fb=120&ff=100&closeany=1", Q: 2, T: 3},
-		{Name: "lim?ver=0.8.2.0&mmb=200&vs=6,174,175,201&ks=-1,-1,-1,3&policy=input&closeany=1", Q: 2, T: 3},
+		{Name: "lim?ver=0.10.2.0&mmb=200&vs=73,74,74,6&fm=3&ff=100&fx=3&policy=input", Q: 3, T: 5},
+		{Name: "lim?ver=0.8.2.0&mmb=200&vs=37,40,100,98&ks=37,34,-1,3&fb=120&ff=100&closeany=1", Q: 3, T: 5},
+		{Name: "lim?ver=0.8.2.0&mmb=200&vs=6,174,175,201&ks=-1,-1,-1,3&policy=input&closeany=1", Q: 3, T: 5},
 		// lone message and the timer, after an earlier flush
-		{Name: "lim?ver=0.11.0.0&vs=6,6,6&ff=100&fm=5&fb=4000&closeany=1", Q: 3, T: 4},
-		{Name: "lim?ver=0.10.2.0&vs=6,6&ff=100&closeany=1", Q: 3, T: 4},
+		{Name: "lim?ver=0.11.0.0&vs=6,6,6&ff=100&fm=5&fb=4000&closeany=1", Q: 4, T: 6},
+		{Name: "lim?ver=0.10.2.0&vs=6,6&ff=100&closeany=1", Q: 4, T: 6},
 		// request-size limit
-		{Name: fmt.Sprintf("lim?ver=0.11.0.0&mrs=%d&vs=963,964,2100,8&ff=100&policy=input&closeany=1", MRS), Q: 2, T: 3},
-		{Name: fmt.Sprintf("lim?ver=0.8.2.0&mrs=%d&vs=998,998,%d,8&parts=0,1,0,1&policy=input", MRS, MRS-71), Q: 2, T: 3},
+		{Name: fmt.Sprintf("lim?ver=0.11.0.0&mrs=%d&vs=963,964,2100,8&ff=100&policy=input&closeany=1", MRS), Q: 3, T: 5},
+		{Name: fmt.Sprintf("lim?ver=0.8.2.0&mrs=%d&vs=998,998,%d,8&parts=0,1,0,1&policy=input", MRS, MRS-71), Q: 3, T: 5},
 	}
+	// a systematic layer: five messages per generation, sizes straddling the batch estimate, two partitions,
+	// every trigger kind, latency (policy input) and early close
+	for _, g := range gens {
+		hb := (MMB - g.fixed - 2*g.ovh) / 2
+		h := (MRS - 10240 - g.fixed - 2*g.ovh) / 2
+		out = append(out,
+			gx.Sc{Name: fmt.Sprintf("lim?ver=%s&mmb=%d&vs=%d,%d,6,%d,6&parts=0,0,1,0,1&fm=2&ff=100&fx=2&policy=input&closeany=1", g.ver, MMB, hb, hb+1, MMB-g.ovh), Q: 3, T: 4},
+			gx.Sc{Name: fmt.Sprintf("lim?ver=%s&mmb=%d&vs=%d,3,6,%d,6&ks=%d,%d,4,-1,0&parts=0,0,0,1,1&fb=120&ff=100&closeany=1", g.ver, MMB, hb/2, MMB+1, hb-hb/2, hb-2), Q: 3, T: 4},
+			gx.Sc{Name: fmt.Sprintf("lim?ver=%s&mmb=%d&vs=6,6,6,6,6&parts=0,0,1,1,0&fx=2&policy=input&closeany=1", g.ver, MMB), Q: 3, T: 4},
+			gx.Sc{Name: fmt.Sprintf("lim?ver=%s&mrs=%d&vs=%d,%d,8,2100,8&parts=0,1,0,1,0&fm=3&ff=100&policy=input&closeany=1", g.ver, MRS, h, h+1), Q: 3, T: 4},
+		)
+	}
+	return out
 }
 
 func join(a []int) string {
@@ -106,12 +120,15 @@ func (f flushCfg) q() string {
 // half of the limit in raw bytes (two of them hit the property's limit exactly); exactly at sarama's
 // per-message measure; one above it (not judged zone); the limit in raw bytes (not judged zone); one
 // above the limit in raw bytes (must be rejected).
-func MsgAlphabet(g genInfo, thorough bool) []int {
+func MsgAlphabet(g genInfo, size int) []int {
 	hb := (MMB - g.fixed - 2*g.ovh) / 2
-	if thorough {
+	switch size {
+	case 9:
 		return []int{6, hb - 1, hb, hb + 1, MMB / 2, MMB - g.ovh, MMB - g.ovh + 1, MMB, MMB + 1}
+	case 6:
+		return []int{6, hb - 1, hb, MMB / 2, MMB - g.ovh, MMB + 1}
 	}
-	return []int{6, hb, hb + 1, MMB / 2, MMB - g.ovh, MMB - g.ovh + 1, MMB + 1}
+	return []int{6, hb, MMB / 2, MMB - g.ovh, MMB + 1}
 }
 
 // WireAlphabet: value sizes around sarama's batching threshold MRS-10240 (two of them just below / at /
@@ -133,7 +150,18 @@ var layouts = map[int][][]int{
 // with its default schedule (policy drain: one message at a time; policy input: all input released while
 // the first answer is left pending, so that batches accumulate behind the in-flight request).
 func Family(thorough bool) []string {
-	var out []string
+	big, _ := families(thorough)
+	return spread(big)
+}
+
+// SmallFamily: the sub-families with few members (count limit B, request-size boundary C1, lone messages
+// D); they are explored with deviations (bound 1 quick, 2 thorough) on top of the default schedule.
+func SmallFamily(thorough bool) []string {
+	_, small := families(thorough)
+	return spread(small)
+}
+
+func families(thorough bool) (out, small []string) {
 	// ---- A: MaxMessageBytes (message rejection + partition batch) x Flush.* x generation x layout x keys x latency
 	lens := []int{3}
 	if thorough {
@@ -141,7 +169,12 @@ func Family(thorough bool) []string {
 	}
 	for _, g := range gens {
 		for _, n := range lens {
-			alpha := MsgAlphabet(g, thorough && n == 3)
+			alpha := MsgAlphabet(g, 6)
+			if thorough && n == 3 {
+				alpha = MsgAlphabet(g, 9)
+			} else if n == 4 {
+				alpha = MsgAlphabet(g, 5)
+			}
 			for _, kvs := range vectors(alpha, n) {
 				for _, keyed := range []bool{false, true} {
 					vs, ks := make([]int, n), make([]int, n)
@@ -164,12 +197,16 @@ func Family(thorough bool) []string {
 			}
 		}
 	}
-	// ---- B: count limit with five small messages (the request behind the in-flight one fills up)
+	// ---- B: count limit with 3-5 small messages (the request behind the in-flight one fills up; a later message opens a new partition batch)
 	for _, g := range gens {
-		for _, lay := range layouts[5] {
+		for _, lay := range [][]int{{0, 0, 0, 0, 0}, {0, 1, 0, 1, 0}, {0, 0, 1, 1, 0}, {0, 0, 0, 1, 1}, {0, 0, 1}, {0, 1, 1}, {0, 0, 0, 1}, {0, 1, 0, 0}} {
+			vs := make([]int, len(lay))
+			for i := range vs {
+				vs[i] = 6
+			}
 			for _, f := range flushCfgs(2, 60, 100, 2) {
 				for _, pol := range []string{"drain", "input"} {
-					out = append(out, fmt.Sprintf("lim?ver=%s&mmb=%d&vs=6,6,6,6,6&parts=%s%s&policy=%s", g.ver, MMB, join(lay), f.q(), pol))
+					small = append(small, fmt.Sprintf("lim?ver=%s&mmb=%d&vs=%s&parts=%s%s&policy=%s", g.ver, MMB, join(vs), join(lay), f.q(), pol))
 				}
 			}
 		}
@@ -177,9 +214,9 @@ func Family(thorough bool) []string {
 	// ---- C1: MaxRequestSize, one big message whose frame straddles the limit byte by byte (followed by a small one)
 	for _, g := range gens {
 		for v := MRS - 150; v <= MRS+2; v++ {
-			out = append(out, fmt.Sprintf("lim?ver=%s&mrs=%d&vs=%d,8&ks=-1,-1", g.ver, MRS, v))
+			small = append(small, fmt.Sprintf("lim?ver=%s&mrs=%d&vs=%d,8&ks=-1,-1", g.ver, MRS, v))
 			if thorough || v%3 == 0 {
-				out = append(out, fmt.Sprintf("lim?ver=%s&mrs=%d&vs=%d,8&ks=500,-1&policy=input&ff=100", g.ver, MRS, v-500))
+				small = append(small, fmt.Sprintf("lim?ver=%s&mrs=%d&vs=%d,8&ks=500,-1&policy=input&ff=100", g.ver, MRS, v-500))
 			}
 		}
 	}
@@ -212,20 +249,49 @@ func Family(thorough bool) []string {
 							for i := range vs {
 								vs[i], ks[i] = 6, keyed
 							}
-							out = append(out, fmt.Sprintf("lim?ver=%s&vs=%s&ks=%s&fm=%d&fb=%d&ff=%d", g.ver, join(vs), join(ks), fm, fb, ff))
+							small = append(small, fmt.Sprintf("lim?ver=%s&vs=%s&ks=%s&fm=%d&fb=%d&ff=%d", g.ver, join(vs), join(ks), fm, fb, ff))
 						}
 					}
 				}
 			}
 		}
 	}
+	return out, small
+}
+
+// spread permutes the family with a fixed multiplicative stride so that every prefix (a run cut by the
+// internal deadline) is a uniform cross-section of all sub-families; VERIF_SEED rotates the start.
+func spread(in []string) []string {
+	n := len(in)
+	if n < 3 {
+		return in
+	}
+	stride := 7919
+	for gcd(stride, n) != 1 {
+		stride++
+	}
+	out := make([]string, n)
+	start := (ev.Seed() * 104729) % n
+	if start < 0 {
+		start += n
+	}
+	for i := range out {
+		out[i] = in[(start+i*stride)%n]
+	}
 	return out
 }
 
-const FamilyRule = "A: every vector of 3 (thorough: also 4) key+value sizes over the per-generation boundary alphabet of MaxMessageBytes=200 " +
+func gcd(a, b int) int {
+	for b != 0 {
+		a, b = b, a%b
+	}
+	return a
+}
+
+const FamilyRule = "A: every vector of 3 key+value sizes over the per-generation boundary alphabet of MaxMessageBytes=200 (quick: 6 letters; thorough: all 9 letters, and vectors of 4 over 5 letters) " +
 	"(small; pairs just below/at/above sarama's partition-batch estimate; half the limit; exactly at / one above sarama's per-message measure; the limit and limit+1 in raw bytes) " +
 	"x keys nil / key = half of the bytes x partition layouts x Flush{Messages 0/2, Bytes 0/120, Frequency 0/100ms, MaxMessages 0/2} x generation v0/v1/v2 x policy drain/input; " +
-	"B: five small messages x the same Flush matrix (count limit); C1: MaxRequestSize=12288 and one message whose value length runs byte by byte over [limit-150, limit+2] (nil key; key of 500 bytes) x generation; " +
+	"B: three to five small messages x eight partition layouts (a later message opening a new partition batch) x the same Flush matrix (count limit); C1: MaxRequestSize=12288 and one message whose value length runs byte by byte over [limit-150, limit+2] (nil key; key of 500 bytes) x generation; " +
 	"C2: vectors of 3 (thorough: 4) value sizes around sarama's batching threshold (MaxRequestSize-10KiB) x Flush matrix x layouts x generation x policy; " +
 	"D: lone messages (1 or 3 in a row, one at a time) x Flush.Messages 0/1/2 x Flush.Bytes 0/20/4000 x Flush.Frequency 0/100ms x generation. " +
-	"Every member is executed through the real client+producer against the simulated broker with its default schedule; non-trivial = at least one produce request reached the broker's oracle or a message was rejected"
+	"Every member of A and C2 is executed through the real client+producer against the simulated broker with its default schedule, every member of B, C1 and D with all schedules of at most 1 (quick) / 2 (thorough) deviations; non-trivial = at least one produce request reached the broker's oracle or a message was rejected"
